@@ -5,20 +5,25 @@ import numpy as np
 from core import cz, cn, cq, clist, copt, VERIF
 sys.path.insert(0, os.path.join(VERIF, "translator"))
 import tr_rotamer
+import tr_disorder
 
 PID = "C20"
 PROPS_FILE = "Props/C20.v"
-MODEL_TARGETS = ["Model/Rotamer.vo", "Gen/RotamerGen.vo"]
-GEN_FILES = ["Gen/RotamerGen.v"]
-CASE_HEADER = ("From Coq Require Import List ZArith QArith.\nFrom EV Require Import RotamerBase RotamerGen Rotamer.\n"
+MODEL_TARGETS = ["Model/Rotamer.vo", "Gen/RotamerGen.vo", "Base/DisorderBase.vo", "Gen/DisorderGen.vo"]
+GEN_FILES = ["Gen/RotamerGen.v", "Gen/DisorderGen.v"]
+CASE_HEADER = ("From Coq Require Import List ZArith QArith.\nFrom EV Require Import RotamerBase RotamerGen Rotamer DisorderBase DisorderGen.\n"
                "Import ListNotations.\n")
 RULE = ("rotamer: angle sequences (length 1..14, multiples of 1/4 degree) built to approach every gate and the 0/360 seam "
         "from both sides, boundary sets phi/psi/chi plus random increasing sets, buffers 0..max incl. the wide 2-basin "
         "range and invalid widths; run on the real _rotamers and on the translated model; oracle = independent "
         "hysteresis automaton on exact fractions (off-gate angles only). transitions: random 1-D/2-D state arrays incl. "
-        "rows without transitions. non-trivial := at least one state change and one retained state in a run of >= 3 frames")
+        "rows without transitions, ragged rows; the implementation's output is compared with the hand model AND with the "
+        "definitions translated from disorder.py (gen_transitions incl. its branch test). non-trivial := at least one state change and one retained state in a run of >= 3 frames")
 TRUSTED = ["translator/tr_rotamer.py + translator/py2coq.py (get_gates, is_buffered_transition whole; _rotamers loop skeleton Base/RotamerBase.v with translated tests)",
-           "modelled not verified: np.digitize, int16 result array"]
+           "modelled not verified: np.digitize, int16 result array",
+           "translator/tr_disorder.py (disorder.transitions, both branches and the branch test) over the vocabulary Base/DisorderBase.v + Base/PySlice.v "
+           "(slices, element-wise -, comparison mask, np.where/ra.where, np.bincount minlength, RaggedArray(flat, lengths)); "
+           "broadcasting of a length-1 operand in `-` is not modelled (treated as an error)"]
 ASSUMPTIONS = ["angles in [0,360); theorems exclude the finitely many gate values; boundary sets are the three used by the library"]
 SHARD = 250
 
@@ -26,7 +31,9 @@ LIB = {"phi": [0, 180, 360], "psi": [0, 160, 360], "chi": [0, 120, 240, 360]}
 
 
 def translate(repo):
-    return tr_rotamer.translate(repo)
+    files = dict(tr_rotamer.translate(repo))
+    files.update(tr_disorder.translate(repo))
+    return files
 
 
 def _angles(rng, hb, b, n):
@@ -91,6 +98,24 @@ def generate(rng, tier):
             if len({len(r) for r in rows}) == 1:
                 rows[0] = rows[0] + [rng.randrange(3)]
             cases.append({"kind": "transra", "rows": rows})
+    # round 3: degenerate shapes of the transition bookkeeping -- rows of length 0 and 1 (ragged and
+    # rectangular), 1-D input of length 0, input in which no row has a transition
+    for _ in range(n // 8):
+        q = rng.random()
+        if q < 0.15:
+            cases.append({"kind": "trans1", "rows": [[rng.randrange(3)] * rng.choice([0, 0, 1, 2, 4])]})
+        elif q < 0.4:
+            L = rng.choice([0, 1, 1, 2])
+            cases.append({"kind": "trans2", "rows": [[rng.randrange(2) for _ in range(L)] for _ in range(rng.choice([1, 2, 3]))]})
+        elif q < 0.55:
+            L = rng.choice([2, 3, 4])
+            cases.append({"kind": "trans2", "rows": [[rng.randrange(3)] * L for _ in range(rng.choice([1, 2, 3]))]})
+        else:
+            rows = [[rng.randrange(3) if rng.random() < 0.6 else 1 for _ in range(rng.choice([0, 1, 1, 2, 3, 5]))]
+                    for _ in range(rng.choice([1, 2, 3, 4]))]
+            if rng.random() < 0.3:
+                rows = [[r[0]] * len(r) if r else r for r in rows]
+            cases.append({"kind": "transra", "rows": rows})
     return cases
 
 
@@ -112,7 +137,8 @@ def run_impl(c):
             from enspara.ra.ra import RaggedArray
             t = transitions(RaggedArray([np.array(r) for r in c["rows"]]))
         else:
-            t = transitions(np.array(c["rows"]))
+            rows = c["rows"]
+            t = transitions(np.array(rows, dtype=int).reshape(len(rows), len(rows[0])))
         return {"tt": [[int(x) for x in row] for row in t]}
     except Exception as ex:
         return {"err": type(ex).__name__}
@@ -176,8 +202,16 @@ def coq_check(c, r):
         return "CaseLib.opt_eqb CaseLib.zl_eqb (%s) %s" % (coq_show(c), exp)
     if "tt" not in r:
         return None   # error path: oracle decides (known finding or violation)
-    return "CaseLib.list_eqb CaseLib.nl_eqb (%s) %s" % (
-        coq_show(c), clist(r["tt"], lambda l: clist(l, cn, "nat"), "(list nat)"))
+    exp = clist(r["tt"], lambda l: clist(l, cn, "nat"), "(list nat)")
+    hand = "CaseLib.list_eqb CaseLib.nl_eqb (%s) %s" % (coq_show(c), exp)
+    # the definitions translated from disorder.py, entered through the translated branch test
+    if c["kind"] == "trans1":
+        gen = "match gen_transitions (Arr1 %s) with TT1 l => CaseLib.nl_eqb l %s | _ => false end" % (
+            clist(c["rows"][0], cz, "Z"), clist(r["tt"][0], cn, "nat"))
+    else:
+        gen = "match gen_transitions (Arr2 %s) with TT2 l => CaseLib.list_eqb CaseLib.nl_eqb l %s | _ => false end" % (
+            clist(c["rows"], lambda l: clist(l, cz, "Z"), "(list Z)"), exp)
+    return "andb (%s) (%s)" % (hand, gen)
 
 
 def coq_show(c):
@@ -196,7 +230,14 @@ def nontrivial(c, r):
 
 def tags(c, r):
     if c["kind"] != "rot":
-        return [c["kind"]]
+        t = [c["kind"]]
+        if any(len(row) <= 1 for row in c["rows"]):
+            t.append("trans-short-row")
+        if c["kind"] != "trans1" and all(len(set(row)) <= 1 for row in c["rows"]):
+            t.append("trans-no-transition-anywhere")
+        if c["kind"] != "trans1" and len(c["rows"]) > 1 and len(set(c["rows"][-1])) <= 1 and any(len(set(row)) > 1 for row in c["rows"]):
+            t.append("trans-trailing-quiet-row")
+        return t
     t = ["rot-" + str(len(c["hb"]) - 1) + "basin"]
     b = F(c["b"])
     if "err" in r:
@@ -210,4 +251,5 @@ def tags(c, r):
     return t
 
 
-ESSENTIAL_TAGS = ["transra", "rot-2basin", "rot-3basin", "rot-wide-2basin-buffer", "rot-zero-buffer", "rot-rejected", "trans1", "trans2"]
+ESSENTIAL_TAGS = ["transra", "rot-2basin", "rot-3basin", "rot-wide-2basin-buffer", "rot-zero-buffer", "rot-rejected", "trans1", "trans2",
+                  "trans-short-row", "trans-no-transition-anywhere", "trans-trailing-quiet-row"]
